@@ -332,6 +332,19 @@ INDICES = [None, 0, 1, 12]
 CLASSES = [None, "GL", "GS", "GI", "AwareASTNode"]
 
 
+def texts_of(steps, brackets=9):
+    """Spellings of one step sequence: canonical; relative first step; '[]' written out for each step that has a field or a
+    class but no index (one at a time)."""
+    out = [RX.render(steps)]
+    if steps[0][0]:
+        out.append(RX.render(steps, first_relative=True))
+    for i, st in enumerate(steps):
+        if st[2] is None and (st[1] is not None or st[3] is not None) and brackets > 0:
+            out.append(RX.render(steps, empty_brackets=(i,)))
+            brackets -= 1
+    return list(dict.fromkeys(out))
+
+
 def run_shard(cfg):
     rec = Rec(cfg)
     idx = 0
@@ -358,7 +371,7 @@ def run_shard(cfg):
     fams = [list(f) for f in (fams if cfg["tier"] == "thorough" else fams[:2] + [RX.paths(3, [None, "child"], [None], [None, "GL", "GI"])])]
     for fam in fams:
         for steps in fam:
-            for text in dict.fromkeys([RX.render(steps)] + ([RX.render(steps, first_relative=True)] if steps[0][0] else [])):
+            for text in texts_of(steps):
                 idx += 1
                 if idx % of == k:
                     rec.rank = 10**6 + idx
@@ -367,7 +380,7 @@ def run_shard(cfg):
     huge = [TreeCase(I(opt=L(), items=[L(), S()] * 150, lst=[S(), L()]))]
     for steps in list(RX.paths(1, [None, "items", "lst"], [None, 0, 10, 100, 255, 256, 257, 258, 299], [None, "GL", "GS"])) + \
             list(RX.paths(2, [None, "items"], [None, 257], [None, "GL", "GI"])):
-        for text in dict.fromkeys([RX.render(steps)] + ([RX.render(steps, first_relative=True)] if steps[0][0] else [])):
+        for text in texts_of(steps):
             idx += 1
             if idx % of == k:
                 rec.rank = 3 * 10**6 + idx
@@ -377,7 +390,7 @@ def run_shard(cfg):
     small = [TreeCase(d) for n in range(1, 5) for d in U.trees(n)]
     rec.extra["xpath_small_trees"] = len(small)
     for steps in fams[2]:
-        for text in dict.fromkeys([RX.render(steps)] + ([RX.render(steps, first_relative=True)] if steps[0][0] else [])):
+        for text in texts_of(steps, brackets=1 if cfg["tier"] == "quick" else 9):
             idx += 1
             if idx % of == k:
                 rec.rank = 2 * 10**6 + idx
